@@ -5,6 +5,7 @@
   parser calls (`strtol(…, 10)`), which both the Spec grammar and the code model refer to.
 -/
 import StVerif.Base
+import StVerif.Model.Utf
 
 namespace StVerif.Fmt
 open StVerif
@@ -50,9 +51,20 @@ inductive Arg where
   | char32 (v : Nat)
   | bool (b : Bool)
   | str (bs : List Nat)
-  | nullStr                        -- `const char *` null pointer
+  | nullStr                        -- `const char *` (or wide character pointer) null pointer
+  | wide (src : Utf.Enc) (units : List Nat)
+      -- wide text: `const wchar_t* / char16_t* / char32_t*` (the units in front of the first zero unit),
+      -- `std::basic_string` / `std::basic_string_view` of those types (all units); wchar_t is the
+      -- UTF-32 route on this platform.  `format_type` builds an `ST::string` from it under the
+      -- default validation (`from_utf16 / from_utf32 / from_wchar`), then formats its UTF-8 bytes
   | float (render : Bool → Option Nat → FloatClass → List Nat)
   deriving Inhabited
+
+/-- wide text: the units fit their C++ type (`char16_t`; `char32_t` / `wchar_t`) and the text is
+    below the documented 2^28-unit limit of the conversion functions; vacuous for other arguments -/
+def Arg.WideOk : Arg → Prop
+  | .wide src us => ((src = .utf16 ∧ UnitsLt 65536 us) ∨ (src = .utf32 ∧ UnitsLt (2 ^ 32) us)) ∧ us.length < Generated.hugeBufferSize
+  | _ => True
 
 /-- the values of the argument lie in the range of its C++ type -/
 def Arg.InRange : Arg → Prop
@@ -66,6 +78,7 @@ def Arg.InRange : Arg → Prop
   | .bool _ => True
   | .str bs => bs.length < 2 ^ 31
   | .nullStr => True
+  | .wide src us => (Arg.wide src us).WideOk
   | .float _ => True
 
 /-- libc's `snprintf` reports a positive size for every rendering of this argument (vacuous for
